@@ -1117,6 +1117,10 @@ class Num:
                 else:
                     self.write(lhs, None, st)
 
+    @staticmethod
+    def fk(key, f):
+        return (key + f) if key.endswith("->") else (key + "." + f)
+
     def init_struct(self, key, iv, t, st):
         fn = self.fn
         if iv["k"] == "complit":
@@ -1124,14 +1128,14 @@ class Num:
         if iv["k"] == "zeroinit":
             rec = t.get("rec")
             for f in (self.prog.records.get(rec) or {}).get("fields", []) if self.prog else []:
-                st.env[key + "." + f["n"]] = Poly.const(0)
-                st.meta[key + "." + f["n"]] = (rec, f["n"], None)
+                st.env[self.fk(key, f["n"])] = Poly.const(0)
+                st.meta[self.fk(key, f["n"])] = (rec, f["n"], None)
             return
         if iv["k"] == "init" and "fields" in iv:
             rec = t.get("rec")
             for fld, a in zip(iv["fields"], iv["a"]):
                 a2 = fn.d(a)
-                fk = key + "." + fld
+                fk = self.fk(key, fld)
                 if a2 is None:
                     continue
                 if a2["k"] == "zeroinit":
@@ -1158,8 +1162,8 @@ class Num:
             flds = st.notes.get("ret_fields", {}).get(s["id"])
             if flds:
                 for f, (v, meta) in flds.items():
-                    st.env[key + "." + f] = v
-                    st.meta[key + "." + f] = meta
+                    st.env[self.fk(key, f)] = v
+                    st.meta[self.fk(key, f)] = meta
             return
         sk = self.key(s, st)
         if sk is None:
@@ -1175,8 +1179,8 @@ class Num:
                 if "w" in ft or ft.get("ptr"):
                     fk = (sk + f["n"]) if sk.endswith("->") else (sk + "." + f["n"])
                     v = self.field(st, fk, rec, f["n"])
-                    st.env[key + "." + f["n"]] = v
-                    st.meta[key + "." + f["n"]] = (rec, f["n"], ft.get("c"))
+                    st.env[self.fk(key, f["n"])] = v
+                    st.meta[self.fk(key, f["n"])] = (rec, f["n"], ft.get("c"))
 
     PURE = {"strlen", "aws_min_size", "aws_max_size", "aws_is_mem_zeroed", "memcmp", "strcmp", "strncmp", "isalnum", "isdigit", "isspace", "isxdigit", "isalpha", "tolower", "toupper",
             "aws_byte_buf_is_valid", "aws_byte_cursor_is_valid", "aws_array_list_is_valid", "aws_is_power_of_two", "aws_array_list_length", "aws_array_list_capacity",
